@@ -15,6 +15,7 @@ CONSTANTS Chunks,
           GuardControl,   \* BOOLEAN: the control handler turns handler exceptions into an error response
           SafeDecode,     \* BOOLEAN: the wire decoder bounds every declared length against the bytes present, without wrap-around
           NoSigpipe,      \* BOOLEAN: writes to a socket whose remote end has gone away fail with an error (MSG_NOSIGNAL) instead of raising SIGPIPE
+          GuardEndpoint,  \* BOOLEAN: parse_endpoint turns any advertised "host:port" text it cannot use into "no endpoint" (no exception leaves it)
           MaxHist
 \* manifest classes an adversary can put into a (validly signed) ANNOUNCE or hand to the control plane
 MClasses == {"ok", "dupidx", "zeroidx", "thr0", "thrbig", "expired", "idmismatch", "assignabsent", "garbage", "empty"}
@@ -22,23 +23,26 @@ Unusable(m)   == m \in {"dupidx", "zeroidx"}             \* Shamir::combine thro
 Admissible(m) == m = "ok" \/ (~ValidateIndices /\ Unusable(m))   \* pass validate_shards + TTL + id checks
 VARIABLES cached,   \* cached[c] \in MClasses \cup {"none"} : manifest cached (and key shares published) for c
           held,     \* held[c] : a chunk record exists locally
+          pendEp,   \* pendEp[c] \in {"none", "ok", "hostile"} : a fetch of c is pending at an announcer whose advertised endpoint text is usable / attacker-made
+          sess,     \* the announcer's session is up (requests go over it; the advertised endpoint is parsed only once it is gone)
           obs, alive, hist
-vars == <<cached, held, obs, alive, hist>>
-Init == cached = [c \in Chunks |-> "none"] /\ held = [c \in Chunks |-> FALSE] /\ obs = "init" /\ alive = TRUE /\ hist = <<>>
+vars == <<cached, held, pendEp, sess, obs, alive, hist>>
+Init == cached = [c \in Chunks |-> "none"] /\ held = [c \in Chunks |-> FALSE] /\ pendEp = [c \in Chunks |-> "none"] /\ sess = TRUE
+        /\ obs = "init" /\ alive = TRUE /\ hist = <<>>
 
 Out(o) == obs' = o /\ alive' = (alive /\ o \notin {"threw", "killed"})
 \* validly signed ANNOUNCE carrying a manifest of class m for chunk c
 Announce(c, m) == /\ cached' = IF Admissible(m) THEN [cached EXCEPT ![c] = m] ELSE cached
-                  /\ Out(IF Admissible(m) THEN "handled" ELSE "ignored") /\ UNCHANGED held
+                  /\ Out(IF Admissible(m) THEN "handled" ELSE "ignored") /\ UNCHANGED <<held, pendEp, sess>>
 \* validly signed CHUNK for c: receive_chunk reconstructs the key from the cached manifest
 ChunkMsg(c) == /\ IF cached[c] = "none" THEN Out("nak") /\ UNCHANGED held
                   ELSE IF Unusable(cached[c]) THEN Out(IF GuardCombine THEN "nak" ELSE "threw") /\ UNCHANGED held
                   ELSE Out("handled") /\ held' = [held EXCEPT ![c] = TRUE]
-               /\ UNCHANGED cached
+               /\ pendEp' = (IF held'[c] THEN [pendEp EXCEPT ![c] = "none"] ELSE pendEp) /\ UNCHANGED <<cached, sess>>
 \* local store of c by the operator (control STORE): own manifest replaces the cached one
-Store(c) == cached' = [cached EXCEPT ![c] = "ok"] /\ held' = [held EXCEPT ![c] = TRUE] /\ Out("handled")
+Store(c) == cached' = [cached EXCEPT ![c] = "ok"] /\ held' = [held EXCEPT ![c] = TRUE] /\ pendEp' = [pendEp EXCEPT ![c] = "none"] /\ Out("handled") /\ UNCHANGED sess
 \* REQUEST / ACK / stray handshake messages / unsigned garbage never reach key reconstruction
-Other == Out("ignored") /\ UNCHANGED <<cached, held>>
+Other == Out("ignored") /\ UNCHANGED <<cached, held, pendEp, sess>>
 \* control FETCH for c with manifest class m (OUT header present and non-empty): ingest + fetch_chunk
 CtlFetch(c, m) ==
     LET cm == IF Admissible(m) THEN m ELSE cached[c] IN
@@ -46,33 +50,47 @@ CtlFetch(c, m) ==
     /\ IF ~Admissible(m) THEN Out("error")
        ELSE IF held[c] /\ Unusable(cm) THEN Out(IF GuardCombine \/ GuardControl THEN "error" ELSE "threw")
        ELSE Out("handled")
-    /\ UNCHANGED held
+    /\ UNCHANGED <<held, pendEp, sess>>
 \* control FETCH with an empty OUT: std::filesystem::absolute("") throws filesystem_error
-CtlFetchEmptyOut == Out(IF GuardControl THEN "error" ELSE "threw") /\ UNCHANGED <<cached, held>>
+CtlFetchEmptyOut == Out(IF GuardControl THEN "error" ELSE "threw") /\ UNCHANGED <<cached, held, pendEp, sess>>
 \* a control client resets the connection after asking for a streamed response / a peer closes before the
 \* node answers its REQUEST: the daemon's next write hits a dead socket
-Abort == Out(IF NoSigpipe THEN "ignored" ELSE "killed") /\ UNCHANGED <<cached, held>>
+Abort == Out(IF NoSigpipe THEN "ignored" ELSE "killed") /\ UNCHANGED <<cached, held, pendEp, sess>>
 \* structurally hostile encodings (extreme / wrapping length words, truncations), validly MACed over a session or
 \* unauthenticated as the first frame of a new connection: decode() must reject them without touching memory it does not own
-HostileEncoding == Out(IF SafeDecode THEN "ignored" ELSE "killed") /\ UNCHANGED <<cached, held>>
+HostileEncoding == Out(IF SafeDecode THEN "ignored" ELSE "killed") /\ UNCHANGED <<cached, held, pendEp, sess>>
 \* malformed control requests (bad PAYLOAD-LENGTH, over-long line, NULs, no blank line ...) are parse errors
-CtlMalformed == Out("error") /\ UNCHANGED <<cached, held>>
+CtlMalformed == Out("error") /\ UNCHANGED <<cached, held, pendEp, sess>>
+\* a validly signed ANNOUNCE with an admissible manifest, a shard assigned to this node and an advertised endpoint text ep: a fetch of c
+\* becomes pending at the announcer (schedule_assigned_fetch); while its session is up the REQUEST goes over the session
+AnnounceAssign(c, ep) == /\ sess /\ cached' = [cached EXCEPT ![c] = "ok"]
+                         /\ pendEp' = IF held[c] THEN pendEp ELSE [pendEp EXCEPT ![c] = ep]
+                         /\ Out("handled") /\ UNCHANGED <<held, sess>>
+\* the announcer's session ends (what the node learnt from it stays)
+PeerDrop == sess /\ sess' = FALSE /\ Out("ignored") /\ UNCHANGED <<cached, held, pendEp>>
+\* the daemon's loop: Node::tick() -> process_pending_fetches -> dispatch_pending_fetch; with the session gone it falls back to the
+\* advertised endpoint and parses that text.  tick() runs on the main thread with no handler around it
+Tick == /\ Out(IF ~sess /\ (\E c \in Chunks : pendEp[c] = "hostile") /\ ~GuardEndpoint THEN "threw" ELSE "handled")
+        /\ UNCHANGED <<cached, held, pendEp, sess>>
 
 Acts == {[op |-> "announce", c |-> c, m |-> m] : c \in Chunks, m \in MClasses}
    \cup {[op |-> "chunk", c |-> c] : c \in Chunks} \cup {[op |-> "store", c |-> c] : c \in Chunks}
    \cup {[op |-> "ctlfetch", c |-> c, m |-> m] : c \in Chunks, m \in {"ok", "dupidx", "zeroidx", "garbage", "expired"}}
    \cup {[op |-> "other"], [op |-> "ctlemptyout"], [op |-> "ctlmalformed"], [op |-> "ctlabort"], [op |-> "peerabort"], [op |-> "wire"], [op |-> "prehs"]}
+   \cup {[op |-> "annassign", c |-> c, ep |-> ep] : c \in Chunks, ep \in {"ok", "hostile"}} \cup {[op |-> "peerdrop"], [op |-> "ticks"]}
 Do(a) == CASE a.op = "announce" -> Announce(a.c, a.m) [] a.op = "chunk" -> ChunkMsg(a.c) [] a.op = "store" -> Store(a.c)
            [] a.op = "ctlfetch" -> CtlFetch(a.c, a.m) [] a.op = "other" -> Other
            [] a.op = "ctlemptyout" -> CtlFetchEmptyOut [] a.op = "ctlmalformed" -> CtlMalformed
            [] a.op \in {"ctlabort", "peerabort"} -> Abort
            [] a.op \in {"wire", "prehs"} -> HostileEncoding
+           [] a.op = "annassign" -> AnnounceAssign(a.c, a.ep) [] a.op = "peerdrop" -> PeerDrop [] a.op = "ticks" -> Tick
 Next == alive /\ \E a \in Acts : Do(a) /\ hist' = Append(hist, a)
 Spec == Init /\ [][Next]_vars
-View == <<cached, held, obs, alive>>
+View == <<cached, held, pendEp, sess, obs, alive>>
 Bound == Len(hist) <= MaxHist
 \* [C35] no delivery ends in an escaping exception; the process stays alive
 C35_NoThrow == obs \notin {"threw", "killed"} /\ alive
 Reach_PoisonThenChunk == ~(\E i \in 1..Len(hist) : hist[i].op = "chunk" /\ i > 1 /\ hist[i-1].op = "announce" /\ hist[i-1].m = "dupidx" /\ hist[i-1].c = hist[i].c)
+Reach_HostileEndpointParsed == ~(obs = "handled" /\ ~sess /\ \E c \in Chunks : pendEp[c] = "hostile" /\ hist # <<>> /\ hist[Len(hist)].op = "ticks")
 Reach_PoisonHeldThenFetch == ~(\E c \in Chunks : held[c] /\ Unusable(cached[c]))
 =============================================================================
